@@ -38,6 +38,12 @@ STRENGTHENED = {
  'C08-r5-m3': 'results asked as Sid objects on searches derived from untypeable (near-miss) entries',
  'C20-r5-m1': 'family member whose third path configuration has its own one-to-one value mappings (C05 stream in all configurations of one process)',
  'C20-r5-m3': 'the C11 finder-agreement stream (real trees) on every family member',
+ 'C02-r6-m3': 'histories: assignment into the dictionary returned by .fields, then the rebuilds again',
+ 'C07-r6-m3': "histories in one process: a '**' search, then the star-filled strings it stands for",
+ 'C10-r6-m1': "'**' in the middle of a search, including the zero-level case on the base's own depth",
+ 'C11-r6-m2': 'an extension alias as the only search feature, on every Finder',
+ 'C13-r6-m1': 'one unchanged tree with files of several types per entity, asked by fresh processes under 6 hash seeds: raw order and find_one compared',
+ 'C15-r6-m3': 'writes through two long-lived writer objects taking turns on the same entity',
  'C20-r3-m2': 'NOT CAUGHT: needs overlapping key_patterns groups (precedence between them is not a documented convention); see DESIGN.md I.7',
 }
 res = {}
@@ -46,7 +52,7 @@ for line in open(os.path.join(V, 'notes', 'seed_sweep_results.txt')):
         k, v = line.split(' | ', 1)
         res[k.strip()] = v.strip()
 for d in sorted(os.listdir(os.path.join(V, 'seeded'))):
-    if not any(t in d for t in ('-r2-', '-r3-', '-r4-', '-r5-')):
+    if not any(t in d for t in ('-r2-', '-r3-', '-r4-', '-r5-', '-r6-')):
         continue
     dd = os.path.join(V, 'seeded', d)
     note = open(os.path.join(dd, 'note.txt')).read().strip() if os.path.exists(os.path.join(dd, 'note.txt')) else ''
@@ -55,7 +61,7 @@ for d in sorted(os.listdir(os.path.join(V, 'seeded'))):
     r = res.get(d, 'not run')
     caught = 'VIOLATION' in r
     meta = {
-        'property': prop, 'round': 2 if '-r2-' in d else (3 if '-r3-' in d else (4 if '-r4-' in d else 5)),
+        'property': prop, 'round': 2 if '-r2-' in d else (3 if '-r3-' in d else (4 if '-r4-' in d else (5 if '-r5-' in d else 6))),
         'breaks': note,
         'needs_to_manifest': note.splitlines()[-1] if note else '',
         'confirmed': 'patch applied in a scratch worktree: repository test suite unchanged (46 passed, 1 known failure); demo.py exits 1 with the patch and 0 without',
